@@ -3,6 +3,7 @@
 CONSTANTS
   SelKinds <- g_SelKinds
   LinkKinds <- g_LinkKinds
+  JoinKinds = {"j11", "j1N", "jNN"}
   Shapes = {"s1", "s2"}
   MaxGroups = 2
   Nest = TRUE
